@@ -345,8 +345,85 @@ fn hyrax(ctx: &mut Ctx, rng: &mut ChaCha20Rng) {
     }
 }
 
+/// Hyrax proofs: each polynomial opened in one call must be blinded by its own fresh vector d.
+/// d_i is recovered from the proof as z_i - c_i * (L^T M_i), with c_i decoded from the recorded sponge trace.
+fn hyrax_proof_blinding(ctx: &mut Ctx, rng: &mut ChaCha20Rng) {
+    type S = HyraxS;
+    let mut cfg = S::gen_cfg(rng, false);
+    if cfg.num_vars == Some(0) {
+        cfg.num_vars = Some(2);
+    }
+    let w = match make_world::<S>(&cfg, rng) {
+        Ok(w) => w,
+        Err(_) => return ctx.skipped("baseline", "setup refused"),
+    };
+    let nv = cfg.num_vars.unwrap();
+    let dim = 1usize << (nv / 2);
+    let k = range(rng, 2, 3);
+    let polys: Vec<LPoly<S>> = (0..k).map(|i| LabeledPolynomial::new(format!("p{}", i), ml_poly::<JFr>(nv, if i == 1 && rng.next_u32() % 3 == 0 { Shape::Zero } else { pick_shape(rng) }, rng), None, None)).collect();
+    let c = match commit::<S>(&w.ck, &polys, rng.next_u64()) {
+        Ok(c) => c,
+        Err(_) => return ctx.skipped("baseline", "commit refused"),
+    };
+    let z: Vec<JFr> = (0..nv).map(|_| JFr::rand(rng)).collect();
+    let tx = Tx::<S> { w, specs: vec![], polys, c, pre: b"c07h".to_vec(), commit_seed: 0 };
+    let idx: Vec<usize> = (0..k).collect();
+    let desc = json!({"nv": nv, "polynomials": k});
+    let tensor = |vals: &[JFr]| -> Vec<JFr> {
+        let mut out = vec![JFr::from(1u64)];
+        for v in vals {
+            let mut nxt = Vec::with_capacity(out.len() * 2);
+            for o in &out {
+                nxt.push(*o * (JFr::from(1u64) - v));
+                nxt.push(*o * v);
+            }
+            out = nxt;
+        }
+        out
+    };
+    let rev: Vec<JFr> = z.iter().rev().cloned().collect();
+    let l = tensor(&rev[nv / 2..]);
+    let r = tensor(&rev[..nv / 2]);
+    let recover = |seed: u64| -> Option<Vec<Vec<JFr>>> {
+        let mut sp = tx.sponge();
+        let proof = open::<S>(&tx, &idx, &z, &mut sp, seed).ok()?;
+        let ch: Vec<JFr> = sp.squeezed_fes();
+        if ch.len() != k || proof.len() != k {
+            return None;
+        }
+        let mut ds = Vec::new();
+        for i in 0..k {
+            let ev = &tx.polys[i].polynomial().evaluations;
+            // column-major layout: M[row][col] = evaluations[col * dim + row]
+            let lt: Vec<JFr> = (0..dim).map(|col| (0..dim).map(|row| l[row] * ev[col * dim + row]).sum()).collect();
+            let eval: JFr = lt.iter().zip(&r).map(|(a, b)| *a * b).sum();
+            if eval != tx.polys[i].evaluate(&z) {
+                return None;
+            }
+            let d: Vec<JFr> = proof[i].z.iter().zip(&lt).map(|(zz, t)| *zz - ch[i] * t).collect();
+            ds.push(d);
+        }
+        Some(ds)
+    };
+    let (a, a2, b) = (recover(11), recover(11), recover(12));
+    match (a, a2, b) {
+        (Some(a), Some(a2), Some(b)) => {
+            let mut distinct = a.iter().all(|d| d.iter().any(|x| !x.is_zero()));
+            for i in 0..k {
+                for j in 0..i {
+                    distinct &= a[i] != a[j];
+                }
+            }
+            ctx.check(distinct, "proof-blinding-per-polynomial", "open", desc.clone(), || json!({"recovered_vectors": a.len(), "pairwise_distinct": distinct}));
+            ctx.check(a == a2 && a != b, "proof-blinding-follows-caller-rng", "open", desc, || json!({"same_seed_equal": a == a2, "other_seed_differs": a != b}));
+        }
+        _ => ctx.skipped("proof-blinding-per-polynomial", "blinding vectors could not be recovered (open refused or transcript model mismatch)"),
+    }
+}
+
 pub fn run(ctx: &mut Ctx) {
     let n = ctx.n(100, 2000);
+    ctx.run_cases("hyrax/proof-blinding", n / 2, |ctx, _i, rng| hyrax_proof_blinding(ctx, rng));
     ctx.run_cases("kzg10", n, |ctx, _i, rng| kzg10_direct(ctx, rng));
     ctx.run_cases("marlin", n / 2, |ctx, _i, rng| kzg_family::<E381, MarlinS<E381>>(ctx, rng, false));
     ctx.run_cases("sonic", n / 2, |ctx, _i, rng| kzg_family::<E381, SonicS<E381>>(ctx, rng, true));
